@@ -300,12 +300,20 @@ func ruleReceiptFlow(r *Run) {
 		r.Undecide("I5", "receipt worker anchors not found")
 		return
 	}
+	// the goroutine HandleReceipts starts: a literal, or a (glue) method / function of the package
 	var worker *Func
-	for _, lf := range r.litsUnder(hr) {
-		if lf.Outer == hr {
-			worker = lf
+	ast.Inspect(hr.Body, func(nd ast.Node) bool {
+		gs, ok := nd.(*ast.GoStmt)
+		if !ok {
+			return true
 		}
-	}
+		if lit, isLit := ast.Unparen(gs.Call.Fun).(*ast.FuncLit); isLit {
+			worker = r.P.Lits[lit]
+		} else if f, _ := calleeObj(hr.Info(), gs.Call).(*types.Func); f != nil && r.P.isGlue(f) {
+			worker = r.P.Funcs[f]
+		}
+		return false
+	})
 	if !r.Check("I5", hr.Name+":worker", worker != nil, hr.Body.Pos(), "HandleReceipts starts a worker goroutine") {
 		return
 	}
@@ -318,7 +326,7 @@ func ruleReceiptFlow(r *Run) {
 		verdict := ""
 		var recvIdx = -1
 		for i, ev := range path.Events {
-			if ev.Kind == EvChanOp && !ev.Send && strings.HasSuffix(r.P.Canon(worker, ev.Chan), ".ReceiptChan") {
+			if ev.Kind == EvChanOp && !ev.Send && strings.HasSuffix(r.P.Canon(ev.Fn, ev.Chan), ".ReceiptChan") {
 				recvIdx = i
 			}
 			if ev.Kind == EvGuard {
@@ -335,11 +343,11 @@ func ruleReceiptFlow(r *Run) {
 		for _, ev := range path.Events[recvIdx:] {
 			if ev.Kind == EvCall && ev.Callee == forward {
 				fwd++
-				c := r.P.Canon(worker, ev.Call.Args[1])
+				c := r.P.Canon(ev.Fn, ev.Call.Args[1])
 				r.CheckT("I5", worker.Name+":forwards-received", strings.HasSuffix(c, ".ReceiptChan") || strings.HasPrefix(c, "<-"), ev.Pos, path, "what is forwarded is the payload taken from the queue (%s)", c)
 			}
 			if ev.Kind == EvCall && ev.Callee == verify {
-				c := r.P.Canon(worker, ev.Call.Args[0])
+				c := r.P.Canon(ev.Fn, ev.Call.Args[0])
 				r.CheckT("I5", worker.Name+":verifies-received", strings.HasSuffix(c, ".ReceiptChan") || strings.HasPrefix(c, "<-"), ev.Pos, path, "what is verified is the payload taken from the queue (%s)", c)
 			}
 		}
@@ -349,7 +357,7 @@ func ruleReceiptFlow(r *Run) {
 					if _, isIdent := ast.Unparen(l).(*ast.Ident); isIdent {
 						continue
 					}
-					c := r.P.Canon(worker, l)
+					c := r.P.Canon(ev.Fn, l)
 					if strings.Contains(c, ".ReceiptChan") {
 						r.CheckT("I5", worker.Name+":payload-untouched", false, ev.Pos, path, "the worker rewrites the received payload (%s) before verifying / forwarding it: what is verified or forwarded is no longer what the client submitted", c)
 					}
